@@ -13,6 +13,13 @@ def _is_int(x):
     return isinstance(x, int) and not isinstance(x, bool)
 
 
+def _dying(r, d):
+    """The request is failed later in this very dispatch (e.g. it has already been taken
+    out by a session purge whose errbacks are still being delivered): for window,
+    FIFO and identifier purposes it is gone already."""
+    return bool(r.fires) and r.fires[0][0] == d.seq and not r.fires[0][1]
+
+
 class Ledger(object):
     def __init__(self, world, rules, props=None):
         self.w = world
@@ -537,7 +544,7 @@ class Ledger(object):
             return
         self.ids = getattr(self, "ids", {})
         old = self.ids.get(mid)
-        if old is not None and old.open:
+        if old is not None and old.open and not _dying(old, d):
             self.probe("id_collision")
             self.violate("C17", "I2", "%s-vs-%s" % (rq.kind, old.kind),
                          "identifier %d given to %s rid=%d while %s rid=%d (%s, addr %s) is unfinished"
@@ -630,8 +637,10 @@ class Ledger(object):
             def same(r):
                 return (not r.qos) and r.topic == p["topic"] and r.payload == p["payload"] \
                     and r.retain == p["retain"]
-            if s.fifo and same(s.fifo[0]):
-                rq = s.fifo.pop(0)
+            live = [r for r in s.fifo if not _dying(r, d)]
+            if live and same(live[0]):
+                rq = live[0]
+                s.fifo.remove(rq)
                 op.in_order = True
             else:
                 rq = None
@@ -668,7 +677,8 @@ class Ledger(object):
         d.tw.append(op)
         if not rq.tx:
             op.first = True
-            op.jumped = not (s.fifo and s.fifo[0] is rq)
+            live = [r for r in s.fifo if not _dying(r, d)]
+            op.jumped = not (live and live[0] is rq)
             if rq in s.fifo:
                 s.fifo.remove(rq)
             rq.timeout0 = min(c.timeout, getattr(rq, "timeout_at_call", c.timeout))
@@ -676,7 +686,7 @@ class Ledger(object):
             rq.tx.append(op)
             d.first_tx.append(op)
             op.inflight = sum(1 for r in s.reqs if r.kind == "publish" and r.qos and r.open
-                              and r.tx and r.ack1 is None)
+                              and r.tx and r.ack1 is None and not _dying(r, d))
             op.window = c.window
         else:
             rq.tx.append(op)
